@@ -2,6 +2,9 @@
 
 Ops: [0] LockRead  [1] LockWrite  [2,it] Begin  [3,it] Next  [4,it] Deref  [5,it] IsEnd
      [6,v] PushFront  [7,v] PushBack  [8,v] EmplaceFront  [9,v] EmplaceBack  [10,it] Erase  [11] Release
+     [12,it] BeginFail  [13,v] PushFail  [14,it] EraseFail: the same calls with the first allocation made inside
+     them failing (std::bad_alloc from the allocator, K_THROW 2 ... K_CATCH 0): registration record, list node,
+     erase's reclamation record
 cfg = [unfixed] (always 0 in the check: the model describes the repaired source).
 Values pushed in one case are pairwise distinct, so that the monitors can name elements.  A NEGATIVE value makes
 the element constructor throw inside allocator_traits::construct (K_CALL 1, K_THROW 0, ... K_CATCH 0): the
@@ -18,7 +21,8 @@ SANITIZE = True
 ENUM = True
 
 LOCKR, LOCKW, BEGIN, NEXT, DEREF, ISEND, PUSHF, PUSHB, EMPF, EMPB, ERASE, RELEASE = range(12)
-PUSHES = (PUSHF, PUSHB, EMPF, EMPB)
+BEGINF, PUSHFAIL, ERASEF = 12, 13, 14      # the first allocation inside the call throws std::bad_alloc
+PUSHES = (PUSHF, PUSHB, EMPF, EMPB, PUSHFAIL)
 READ_OPS = (LOCKR, LOCKW, BEGIN, NEXT, DEREF, ISEND, RELEASE)
 CW = ((14, 0), (2, 3), (1, 1))
 
@@ -36,6 +40,8 @@ def _push(rng, vals):
     v = vals.fresh()
     if rng.chance(1, 6):
         v = -v          # the element constructor throws inside push_* / emplace_* (the throw plan of the case)
+    if rng.chance(1, 12):
+        return [PUSHFAIL, abs(v)]   # allocation failure: of the registration record (first access) or of the node
     return [rng.weighted([(4, PUSHF), (4, PUSHB), (1, EMPF), (1, EMPB)]), v]
 
 
@@ -47,7 +53,10 @@ def _traverse(rng, it, maxlen):
 
 
 def _reader(rng, vals):
-    ops = [[rng.weighted([(4, LOCKR), (1, LOCKW)])], [BEGIN, 0]]
+    ops = [[rng.weighted([(4, LOCKR), (1, LOCKW)])]]
+    if rng.chance(1, 10):
+        ops.append([BEGINF, 0])     # the registration's allocation fails; the handle stays unregistered
+    ops.append([BEGIN, 0])
     ops += _traverse(rng, 0, 7)
     if rng.chance(1, 4):
         ops += [[BEGIN, 1]] + _traverse(rng, 1, 4) + _traverse(rng, 0, 3)
@@ -71,6 +80,10 @@ def _writer(rng, vals):
         ops.append([BEGIN, 0])
         for _ in range(rng.range(0, 3)):
             ops.append([NEXT, 0])
+        if rng.chance(1, 6):
+            ops.append([ERASEF, 0])  # the record's allocation fails: the element must stay in the list
+            if rng.chance(1, 2):
+                ops.append([DEREF, 0])
         ops.append([ERASE, 0])
         if rng.chance(1, 3):
             ops.append([DEREF, 0])
@@ -113,7 +126,7 @@ def _race3(rng, vals):
     npre = rng.range(2, 4)
     pre = [[LOCKW]] + [[PUSHB, vals.fresh()] for _ in range(npre)] + [[RELEASE]]
     a = rng.range(0, npre - 1)
-    eraser = [[LOCKW], [BEGIN, 0]] + [[NEXT, 0]] * a + [[ERASE, 0], [RELEASE]]
+    eraser = [[LOCKW], [BEGIN, 0]] + [[NEXT, 0]] * a + ([[ERASEF, 0]] if rng.chance(1, 3) else []) + [[ERASE, 0], [RELEASE]]
     if rng.chance(1, 3):
         eraser += [[LOCKR], [BEGIN, 0], [RELEASE]]
     short = []
@@ -283,7 +296,7 @@ def mon_ledger(case, lines):
             order.append(o)
             st[o] = [k]
             last_alloc[t] = o
-        elif k == K['THROW'] and t in last_alloc and st.get(last_alloc[t]) == [K['ALLOC']]:
+        elif k == K['THROW'] and v == 0 and t in last_alloc and st.get(last_alloc[t]) == [K['ALLOC']]:
             raw.add(last_alloc[t])
         elif k in (K['CONSTRUCT'], K['DESTROY'], K['DEALLOC']):
             if o == 0:
@@ -309,7 +322,7 @@ def mon_ledger(case, lines):
         if destroyed_list and seq != full and not _open_handle(case, lines):
             return 'cell %d (object %d) ended with allocator calls %s' % (n, o, seq)
     # "nothing erased => a release frees only handle records"
-    erased = any(e[1] == K['ALLOC'] and e[3] == 2 for op in _ops(case, lines) if op['op'][0] == ERASE for e in op['evs'])
+    erased = any(e[1] == K['ALLOC'] and e[3] == 2 for op in _ops(case, lines) if op['op'][0] in (ERASE, ERASEF) for e in op['evs'])
     if not erased:
         kinds = {}
         for i, t, k, o, v, m in _events(lines):
@@ -325,7 +338,7 @@ def _mutations(case, lines):
     out = []
     for op in _ops(case, lines):
         c = op['op'][0]
-        if c not in PUSHES and c != ERASE:
+        if c not in PUSHES and c not in (ERASE, ERASEF):
             continue
         if any(e[1] == K['THROW'] for e in op['evs']):
             continue            # the constructor threw: nothing was inserted
@@ -333,7 +346,7 @@ def _mutations(case, lines):
         if not lock:
             continue
         after = [e for e in op['evs'] if e[0] > lock[0][0]]
-        if c == ERASE:
+        if c in (ERASE, ERASEF):
             ld = [e for e in after if e[1] == K['LOAD'] + PTR]
             if ld:
                 out.append((lock[0][0], 'E', ld[0][2], None, op))
@@ -422,8 +435,8 @@ def mon_traversal(case, lines):
                     trav[key]['seq'].append(n)
                 else:
                     trav[key]['end'] = ld[-1][0]
-        elif c == ERASE and key in trav:
-            if op['evs']:
+        elif c in (ERASE, ERASEF) and key in trav:
+            if op['evs'] and not any(e[1] == K['THROW'] for e in op['evs']):
                 trav.pop(key)   # the iterator jumps to the successor read before the unlink: not a plain traversal any more
         elif c == DEREF:
             rd = [e for e in op['evs'] if e[1] == K['RD_END']]
@@ -450,7 +463,7 @@ def mon_read_mutex(case, lines):
             for e in op['evs']:
                 if K['LOCK'] <= e[1] <= K['TRYLOCK_SH_FOR'] or K['CV_SLEEP'] <= e[1] <= K['NOTIFY_ONE']:
                     return 'thread %d: mutex / condition-variable event inside read operation %s at trace line %d' % (op['t'], op['op'], e[0])
-        elif op['op'][0] in PUSHES or op['op'][0] == ERASE:
+        elif op['op'][0] in PUSHES or op['op'][0] in (ERASE, ERASEF):
             lock = [e[0] for e in op['evs'] if e[1] == K['LOCK']]
             # the lazy registration inside a mutator happens before the mutex is taken
             for e in op['evs']:
